@@ -168,6 +168,25 @@ class C17(Prop):
                     kw + sx.a_derive_ex(sx.dx(tl)) + ' ' + it[len(kw):])
                 out.append((req, dict(features=('double+Ord', shape, mode, name, tl[0][0]), ok=ok and ord_key_ok, nontrivial=True,
                                       other_reason=None if ord_key_ok else 'Ord')))
+        # a compared non-Eq field whose type mentions only a lifetime parameter (no bound is generated for it: it must be refused)
+        for (tn, t, ok), shape, mode in itertools.product(
+                (('refF', sx.tref(sx.tid('F'), lt='a'), False), ('refu8', sx.tref(sx.tid('u8'), lt='a'), True),
+                 ('optrefF', sx.tgen('Option', sx.tref(sx.tid('F'), lt='a')), False)),
+                ('named', 'tuple', 'enumt1'), ('attr', 'derive')):
+            tup = shape != 'named'
+            fs = [sx.field(sx.tid('u8'), name=None if tup else 'f0'), sx.field(t, name=None if tup else 'f1')]
+            body = sx.unnamed(fs) if tup else sx.named(fs)
+            lg = sx.generics([sx.gp_lt('a')])
+            if shape == 'enumt1':
+                it = sx.enum('E', [sx.variant('B', sx.UNIT), sx.variant('A', body)], gen=lg)
+                kw = '(enum ('
+            else:
+                it = sx.struct('X', body, gen=lg)
+                kw = '(struct ('
+            tl = [('Eq', None), ('PartialEq', None)]
+            req = sx.inv_attr(sx.dx(tl), it) if mode == 'attr' else sx.inv_derive(
+                kw + sx.a_derive_ex(sx.dx(tl)) + ' ' + it[len(kw):])
+            out.append((req, dict(features=('lifetime-only', tn, shape, mode), ok=ok, nontrivial=True)))
         # generic: the checker re-uses the impl's where-clause
         T = sx.tid('T')
         gen = sx.generics([sx.gp_ty('T')])
